@@ -235,7 +235,7 @@ static bool build_case(uint64_t seed, Case &c, std::string &skip) {
         Bytes var; VariantStats vs;
         if(!ber_variant(E, rvar, var, vs, &hints)) { skip = "variant_unparsable"; return false; }
         E = var;
-        G.add("c05.variant.indefinite", vs.indefinite); G.add("c05.variant.longform", vs.longform); G.add("c05.variant.segmented", vs.segmented);
+        G.add("c05.variant.indefinite", vs.indefinite); G.add("c05.variant.longform", vs.longform); G.add("c05.variant.segmented", vs.segmented); G.add("c05.variant.alternative_primitive", vs.alternative);
     }
     if(c.sy == SY_XER || c.sy == SY_CXER) xer_strip_trailing_ws(E);
     if(c.sy == SY_DER || c.sy == SY_BER) {
